@@ -54,6 +54,11 @@ PostOK ==
                             /\ (Flavor = "async" /\ ProcAlive' => stopQ' = p.stopq))
     /\ ("life" \in Cmp) => (closed' = p.closed /\ pol'.closed = p.polclosed)
     /\ ("met" \in Cmp) => met' = MetOf(p)
+    \* ratio() is hits / (hits + misses), 0 when there were no lookups (compared at 1e-6, hits < 2000)
+    /\ ("met" \in Cmp /\ p.met.hit < 2000) =>
+          (p.met.ratio_ppm - (IF p.met.hit + p.met.miss = 0 THEN 0 ELSE (p.met.hit * 1000000) \div (p.met.hit + p.met.miss))) \in {0, 1}
+    \* no entry is ever tracked by this version (track_admission), so the life-expectancy histogram stays empty
+    /\ ("met" \in Cmp) => p.met.life_count = 0
     /\ ("cbs" \in Cmp) => cbs' = CbsOf(Ev)
     /\ ("store" \in Cmp) => Cardinality({ i \in Idx : store'[i] # Nil }) = p.len
 
